@@ -389,8 +389,9 @@ impl Property for P {
             prop_oneof![3 => Just(0u64), 1 => 0u64..100],
         );
         let frags = prop_oneof![
-            4 => prop::collection::vec(small, 0..=n),
-            1 => prop::collection::vec(large, 0..=n),
+            80 => prop::collection::vec(small.clone(), 0..=n),
+            20 => prop::collection::vec(large, 0..=n),
+            1 => gen::log_count(500).prop_flat_map(move |k| prop::collection::vec(small.clone(), k..=k)),
         ];
         let lw = prop_oneof![6 => 0u64..=30, 2 => 0u64..=3, 1 => 0u64..100_000, 1 => 31u64..=80];
         let widths = prop_oneof![
